@@ -227,7 +227,7 @@ func TestVerifConsts(t *testing.T) {
 				acc = append(acc, verifCoqBytes(n))
 			}
 		}
-		xs = append(xs, fmt.Sprintf("(%d%%Z, [%s])", e, strings.Join(acc, "; ")))
+		xs = append(xs, fmt.Sprintf("((%d)%%Z, [%s])", e, strings.Join(acc, "; ")))
 	}
 	body := "(* internal/app/referenceserver checkCompression: per expected enum value, the names it accepts\n" +
 		"   (of: the six names, \"\", GZIP, zlib, brotli) under all four header / query variants *)\n" +
@@ -235,7 +235,7 @@ func TestVerifConsts(t *testing.T) {
 	var ys []string
 	for _, n := range verifServerNames {
 		ra, pa := verifServerAlgs(n)
-		ys = append(ys, "("+verifCoqBytes(n)+", ("+strconv.Itoa(ra)+"%Z, "+strconv.Itoa(pa)+"%Z))")
+		ys = append(ys, "("+verifCoqBytes(n)+", (("+strconv.Itoa(ra)+")%Z, ("+strconv.Itoa(pa)+")%Z))")
 	}
 	body += "(* the live reference server: per encoding name, the algorithm a request body must be compressed with to be\n" +
 		"   accepted (0 none) and the algorithm of the response body when the name is offered *)\n" +
